@@ -49,3 +49,18 @@ Theorem rep9_ok k : 0 <= k <= 511 -> quant9 (rep K511 k) = k.
 Proof. intros H. apply Z.eqb_eq. apply (range_ok_sound r9 _ _ r9_all). lia. Qed.
 Theorem rep8_ok k : 0 <= k <= 255 -> quant8 (rep K255 k) = k.
 Proof. intros H. apply Z.eqb_eq. apply (range_ok_sound r8 _ _ r8_all). lia. Qed.
+
+(* bit pattern of a binary32 value (canonical quiet NaN), for comparing with math.Float32bits *)
+Definition bits32 (x : BinarySingleNaN.binary_float 24 128) : Z :=
+  match x with
+  | BinarySingleNaN.B754_zero s => if s then 2147483648 else 0
+  | BinarySingleNaN.B754_infinity s => (if s then 2147483648 else 0) + 2139095040
+  | BinarySingleNaN.B754_nan => 2143289344
+  | BinarySingleNaN.B754_finite s m e _ =>
+    (if s then 2147483648 else 0) +
+    (if Z.pos m <? 8388608 then Z.pos m else (e + 150) * 8388608 + (Z.pos m - 8388608))
+  end.
+Definition alpha16_bits (a : Z) : Z := bits32 (rep K65535 a).
+Definition alpha8_bits (a : Z) : Z := bits32 (rep K255 a).
+Example alpha16_one : alpha16_bits 65535 = 1065353216. Proof. vm_compute. reflexivity. Qed.
+Example alpha16_half : alpha16_bits 32768 = 1056964736. Proof. vm_compute. reflexivity. Qed.
